@@ -4,83 +4,10 @@
   are the specification's `sel a k`, and `advance` reaches period `k+1`.
 -/
 import DateutilVerif.Proofs.RRuleBridgeCal
-import DateutilVerif.Proofs.RRuleDaily
-import DateutilVerif.Proofs.RRuleMonoCal
+import DateutilVerif.Proofs.RRuleRange
 
 namespace RRule
 open Cal
-
-variable {r : Rule} {y : Int} {info : Info}
-
-/-! ### a whole range of days -/
-
-theorem filterDays_simple (hs : SimpleRule r) (f : YearFacts r y info) (hnw : info.nwdaymask = none) :
-    ∀ (ds : List Int), (∀ i ∈ ds, 0 ≤ i ∧ i < info.yearlen + 7) →
-    ∃ fl, filterDays r info ds = .ok (ds.filter (fun i => simpleOk r (info.yearordinal + i)), fl) := by
-  intro ds
-  induction ds with
-  | nil => intro _; exact ⟨false, rfl⟩
-  | cons i is ih =>
-    intro hb
-    obtain ⟨fl, hfl⟩ := ih (fun j hj => hb j (List.mem_cons_of_mem _ hj))
-    have hi := hb i (List.mem_cons_self ..)
-    unfold filterDays
-    rw [dayFiltered_simple hs f hnw i hi.1 hi.2, hfl]
-    dsimp only
-    by_cases c : simpleOk r (info.yearordinal + i) = true
-    · simp only [c, Bool.not_true, Bool.false_eq_true, ↓reduceIte, List.filter_cons_of_pos]
-      exact ⟨fl, rfl⟩
-    · have c' : simpleOk r (info.yearordinal + i) = false := by simpa using c
-      simp only [c', Bool.not_false, ↓reduceIte]
-      rw [List.filter_cons_of_neg (by simp [c'])]
-      exact ⟨true, rfl⟩
-
-theorem expandDays_ok (yo : Int) (ts : List HMS) : ∀ (days : List Int),
-    (∀ i ∈ days, 1 ≤ yo + i ∧ yo + i ≤ maxOrdinal) →
-    expandDays yo ts days = (days.flatMap (fun i => ts.map (mkInst (yo + i))), none) := by
-  intro days
-  induction days with
-  | nil => intro _; rfl
-  | cons i is ih =>
-    intro hb
-    have hi := hb i (List.mem_cons_self ..)
-    unfold expandDays checkOrd
-    rw [if_pos hi]
-    dsimp only
-    rw [ih (fun j hj => hb j (List.mem_cons_of_mem _ hj))]
-    rfl
-
-theorem intRange_shift (c a b : Int) : (intRange a b).map (fun i => c + i) = intRange (c + a) (c + b) := by
-  unfold intRange
-  rw [List.map_map]
-  have : (c + b - (c + a)).toNat = (b - a).toNat := by omega
-  rw [this]
-  apply List.map_congr_left
-  intro k _; simp only [Function.comp]; omega
-
-/-- the results of a period whose day set is the index range `[i0, i1)` (no BYSETPOS) -/
-theorem periodResults_range (hs : SimpleRule r) (st : State) (f : YearFacts r y st.info)
-    (hnw : st.info.nwdaymask = none) (hsp : r.bysetpos = none) (i0 i1 : Int)
-    (hds : dayset r st.info st.cur = .ok (intRange i0 i1)) (h0 : 0 ≤ i0) (h1 : i1 ≤ st.info.yearlen + 7)
-    (hlo : 1 ≤ st.info.yearordinal + i0) (hhi : st.info.yearordinal + i1 ≤ maxOrdinal + 1) :
-    ∃ fl, periodResults r st = .ok
-      (((intRange (st.info.yearordinal + i0) (st.info.yearordinal + i1)).filter (simpleOk r)).flatMap
-        (fun o => st.timeset.map (mkInst o)), none, fl) := by
-  have hb : ∀ i ∈ intRange i0 i1, 0 ≤ i ∧ i < st.info.yearlen + 7 := by
-    intro i hi; have := (mem_intRange _ _ _).mp hi; omega
-  obtain ⟨fl, hfl⟩ := filterDays_simple hs f hnw (intRange i0 i1) hb
-  refine ⟨fl, ?_⟩
-  unfold periodResults
-  rw [hds]; dsimp only
-  rw [hfl]; dsimp only
-  rw [hsp]
-  simp only [truthy, Bool.false_and, Bool.false_eq_true, ↓reduceIte]
-  rw [expandDays_ok _ _ _ (by
-    intro i hi
-    have := (mem_intRange _ _ _).mp (List.mem_filter.mp hi).1
-    omega)]
-  rw [← intRange_shift, List.filter_map, List.flatMap_map]
-  rfl
 
 variable {a : Args}
 
@@ -89,48 +16,19 @@ structure YMGood (a : Args) (r : Rule) (k : Nat) (st : State) : Prop where
   facts : YearFacts r st.cur.year st.info
   nwd : st.info.nwdaymask = none
   month : 1 ≤ st.cur.month ∧ st.cur.month ≤ 12
-  timeset : st.timeset = [(a.dtstart.hh, a.dtstart.mm, a.dtstart.ss)]
+  timeset : st.timeset = Spec.RRule.timesOf a none none none
   yearly : a.freq = 0 → st.cur.year = a.dtstart.y + k * a.interval
   monthly : a.freq = 1 →
     st.cur.year * 12 + (st.cur.month - 1) = a.dtstart.y * 12 + (a.dtstart.m - 1) + k * a.interval
 
-theorem ym_timesOf (ya : YMArgs a) :
-    Spec.RRule.timesOf a none none none = [(a.dtstart.hh, a.dtstart.mm, a.dtstart.ss)] := by
-  have hf4 : a.freq < 4 := by rcases ya.freq with h | h <;> omega
-  unfold Spec.RRule.timesOf Spec.RRule.hours Spec.RRule.minutes Spec.RRule.seconds Spec.RRule.restrict
-  simp [ya.byhour, ya.byminute, ya.bysecond, hf4, (by omega : a.freq < 5), (by omega : a.freq < 6)]
-
-/-- the specification's candidates of period `k`, given the period's day span -/
-theorem ym_sel (ya : YMArgs a) (k : Nat) (lo hi : Int)
-    (hsp : Spec.RRule.periodSpan a (k * a.interval) = (lo, hi, none, none, none)) :
-    Spec.RRule.sel a (k : Int) =
-      ((intRange lo hi).filter (Spec.RRule.dateOk a)).flatMap
-        (fun o => [(a.dtstart.hh, a.dtstart.mm, a.dtstart.ss)].map (mkInst o)) := by
-  unfold Spec.RRule.sel Spec.RRule.selOf Spec.RRule.cand Spec.RRule.candAt
-  rw [ya.bysetpos, hsp]
-  dsimp only
-  rw [ym_timesOf ya]
-  rfl
-
-theorem year_end_le (y : Int) (hy : y ≤ 9999) : toOrdinal y 1 1 + daysInYear y ≤ maxOrdinal + 1 := by
-  rw [← toOrdinal_next_year]
-  have := year_start_mono (y + 1) 10000 (by omega)
-  have e : toOrdinal 10000 1 1 = maxOrdinal + 1 := by decide
-  omega
-
 /-- the model's results of period `k` (YEARLY / MONTHLY) -/
-theorem sel_bounds (t : HMS) (lo hi : Int) (p : Int → Bool) (x : Inst)
-    (hx : x ∈ ((intRange lo hi).filter p).flatMap (fun o => [t].map (mkInst o))) : lo ≤ x.ord ∧ x.ord < hi := by
-  simp only [List.mem_flatMap, List.mem_filter, List.mem_map, List.mem_singleton] at hx
-  obtain ⟨o, ⟨ho, _⟩, _, rfl, rfl⟩ := hx
-  exact (mem_intRange _ _ _).mp ho
-
 theorem ym_results (ya : YMArgs a) (h : construct a = .ok r) (k : Nat) (st : State) (hg : YMGood a r k st) :
     (∃ fl, periodResults r st = .ok (Spec.RRule.sel a (k : Int), none, fl)) ∧
     ∀ x ∈ Spec.RRule.sel a (k : Int), 0 ≤ x.ord ∧ x.ord ≤ maxOrdinal := by
   have hs := ym_simple ya h
-  have hfreq : r.freq = a.freq := by rw [ym_rule ya h]
-  have hsp : r.bysetpos = none := by rw [ym_rule ya h]
+  obtain ⟨bh, bm, bs, hr⟩ := ym_rule ya h
+  have hfreq : r.freq = a.freq := by rw [hr]
+  have hsp : r.bysetpos = none := by rw [hr]
   have hyo := hg.facts.yearordinal
   have hyl := hg.facts.yearlen
   have hy1 := hg.facts.year_lo
@@ -156,9 +54,9 @@ theorem ym_results (ya : YMArgs a) (h : construct a = .ok r) (k : Nat) (st : Sta
       dsimp only
       rw [← hg.yearly f0, hyo, hyl, toOrdinal_next_year]; simp
     refine ⟨⟨fl, ?_⟩, ?_⟩
-    · rw [hres, hg.timeset, ym_sel ya k _ _ hspan, hbridge _ _ (by rw [hyo]; omega)]
+    · rw [hres, hg.timeset, sel_span a ya.bysetpos k _ _ hspan, hbridge _ _ (by rw [hyo]; omega)]
     · intro x hx
-      rw [ym_sel ya k _ _ hspan] at hx
+      rw [sel_span a ya.bysetpos k _ _ hspan] at hx
       have := sel_bounds _ _ _ _ x hx
       rw [hyo, hyl] at this; omega
   · -- MONTHLY
@@ -185,9 +83,9 @@ theorem ym_results (ya : YMArgs a) (h : construct a = .ok r) (k : Nat) (st : Sta
       simp only [Prod.mk.injEq, and_true, true_and]
       omega
     refine ⟨⟨fl, ?_⟩, ?_⟩
-    · rw [hres, hg.timeset, ym_sel ya k _ _ hspan, hbridge _ _ (by rw [hyo]; omega)]
+    · rw [hres, hg.timeset, sel_span a ya.bysetpos k _ _ hspan, hbridge _ _ (by rw [hyo]; omega)]
     · intro x hx
-      rw [ym_sel ya k _ _ hspan] at hx
+      rw [sel_span a ya.bysetpos k _ _ hspan] at hx
       have := sel_bounds _ _ _ _ x hx
       rw [hyo] at this; omega
 
@@ -198,8 +96,9 @@ theorem ym_next (ya : YMArgs a) (h : construct a = .ok r) (k : Nat) (st : State)
     (hm : a.freq = 1 → (a.dtstart.y * 12 + (a.dtstart.m - 1) + (k + 1 : Nat) * a.interval) / 12 ≤ 9999) :
     ∃ st', advance r { st with count := c } fl = .ok st' ∧ YMGood a r (k + 1) st' := by
   have hs := ym_simple ya h
-  have hfreq : r.freq = a.freq := by rw [ym_rule ya h]
-  have hint : r.interval = a.interval := by rw [ym_rule ya h]
+  obtain ⟨bh, bm, bs, hr⟩ := ym_rule ya h
+  have hfreq : r.freq = a.freq := by rw [hr]
+  have hint : r.interval = a.interval := by rw [hr]
   have hi := ya.interval
   have hy1 := hg.facts.year_lo
   have hmth := hg.month
@@ -264,13 +163,13 @@ theorem ym_init (ya : YMArgs a) (h : construct a = .ok r) :
   have hv := ya.valid
   unfold DT.Valid ValidDate at hv
   obtain ⟨info, hre, hnw, _, _⟩ := rebuild_simple r hs a.dtstart.y a.dtstart.m hv.1.1 hv.1.2.1
-  have hr := ym_rule ya h
+  obtain ⟨bh, bm, bs, hr⟩ := ym_rule ya h
   have hd : r.dtstart = { a.dtstart with us := 0 } := by rw [hr]
   have hf : r.freq < 4 := by rw [hr]; dsimp only; rcases ya.freq with h | h <;> omega
-  have hts : r.timeset = some [(a.dtstart.hh, a.dtstart.mm, a.dtstart.ss)] := by rw [hr]
+  have hts : r.timeset = some (Spec.RRule.timesOf a none none none) := by rw [hr]
   refine ⟨{ cur := { year := a.dtstart.y, month := a.dtstart.m, day := a.dtstart.d, hour := a.dtstart.hh,
                      minute := a.dtstart.mm, second := a.dtstart.ss, weekday := r.dtstart.weekday },
-            info := info, timeset := [(a.dtstart.hh, a.dtstart.mm, a.dtstart.ss)], count := r.count }, ?_, ?_, rfl⟩
+            info := info, timeset := Spec.RRule.timesOf a none none none, count := r.count }, ?_, ?_, rfl⟩
   · unfold init
     simp only [hd, bind, Except.bind, hre, hts, pure, Except.pure]
     rw [if_pos hf]
